@@ -426,7 +426,7 @@ func runC04(a Args) tr.Summary {
 				entries = []string{"unmarshal", "reader"}
 			}
 		}
-		if entries[0] == "client" {
+		if entries[0] == "client" && (!thorough || mut == "valid" || rng.Intn(3) == 0) { // (the thorough tier's input set is large: a third of it there)
 			for _, d := range append([]string(nil), dests...) {
 				if !strings.Contains(d, "+") {
 					dests = append(dests, "pair:"+d)
